@@ -11,6 +11,8 @@ package c20
 // dependency (Coin.IsValid on a nil amount, Coins.Validate, SafeAdd, …) or the code changed.
 
 import (
+	"bytes"
+	"crypto/ecdsa"
 	"encoding/hex"
 	"encoding/json"
 	"fmt"
@@ -28,11 +30,14 @@ import (
 	banktypes "github.com/cosmos/cosmos-sdk/x/bank/types"
 	govv1beta1 "github.com/cosmos/cosmos-sdk/x/gov/types/v1beta1"
 	"github.com/cosmos/gogoproto/proto"
+	"github.com/ethereum/go-ethereum/common"
+	"github.com/ethereum/go-ethereum/crypto"
 	ibctransfertypes "github.com/cosmos/ibc-go/v8/modules/apps/transfer/types"
 
 	"github.com/functionx/fx-core/v8/contract"
 	fxtypes "github.com/functionx/fx-core/v8/types"
 	crosschaintypes "github.com/functionx/fx-core/v8/x/crosschain/types"
+	migratetypes "github.com/functionx/fx-core/v8/x/migrate/types"
 
 	"fxverif/harness/hx"
 )
@@ -320,6 +325,35 @@ func (c *mpCtx) ext(fn string, args []string) (string, bool) {
 		}
 	case "IsPositive", "IsNegative", "IsZero", "SafeAdd", "GT(sdkmath.LegacyOneDec())":
 		return "0", true // computed by the model from the value
+	case "bytes.Equal(fromAddress.Bytes(), toAddress.Bytes())", "go-ethereum/crypto.SigToPub", "*pubKey", "bytes.Equal(address.Bytes(), toAddress.Bytes())":
+		// locals of MsgMigrateAccount.ValidateBasic, recomputed from the message with the same dependency calls
+		if m, ok := c.root.Interface().(*migratetypes.MsgMigrateAccount); ok {
+			from, _ := sdk.AccAddressFromBech32(m.From)
+			to := common.HexToAddress(m.To)
+			switch fn {
+			case "bytes.Equal(fromAddress.Bytes(), toAddress.Bytes())":
+				return boolB(bytes.Equal(from.Bytes(), to.Bytes())), true
+			case "*pubKey":
+				return "0", true
+			}
+			sig, herr := hex.DecodeString(m.Signature)
+			if herr != nil {
+				return "0", true // not looked at: the hex test returns first
+			}
+			var pub *ecdsa.PublicKey
+			var serr error
+			r := hx.Try(func() error { pub, serr = crypto.SigToPub(migratetypes.MigrateAccountSignatureHash(from, to.Bytes()), sig); return nil })
+			if r != "ok" {
+				return "1", true // a dependency panic is the harness's other monitors' business; the program sees an error
+			}
+			if fn == "go-ethereum/crypto.SigToPub" {
+				return errB(serr), true
+			}
+			if serr != nil || pub == nil {
+				return "0", true
+			}
+			return boolB(bytes.Equal(crypto.PubkeyToAddress(*pub).Bytes(), to.Bytes())), true
+		}
 	}
 	// `seen[x]` inside `for _, x := range coll`: some earlier element equals this one
 	if reSeen.MatchString(fn) {
@@ -467,7 +501,8 @@ func (c *mpCtx) knownFn(fn string) bool {
 		"cosmos-sdk/types.ValidateDenom", "transfer/types.ValidateIBCDenom", "encoding/hex.DecodeString",
 		"fx/contract.ValidateEthereumAddress", "fx/types.StrToByte32", "fx/x/crosschain/types.ValidateExternalAddr", "Coin.Validate",
 		"Coins.Validate", "Metadata.Validate", "fx/types.ValidateMetadata", "types/v1beta1.ValidateAbstract", "assertOk:ExternalClaim",
-		`strings.TrimSpace(alias) == ""`, "IsPositive", "IsNegative", "IsZero", "SafeAdd", "GT(sdkmath.LegacyOneDec())":
+		`strings.TrimSpace(alias) == ""`, "IsPositive", "IsNegative", "IsZero", "SafeAdd", "GT(sdkmath.LegacyOneDec())",
+		"bytes.Equal(fromAddress.Bytes(), toAddress.Bytes())", "go-ethereum/crypto.SigToPub", "*pubKey", "bytes.Equal(address.Bytes(), toAddress.Bytes())":
 		return true
 	}
 	return reSeen.MatchString(fn)
